@@ -387,6 +387,16 @@ def classify_struct(item):
 def classify_extent(item, node, parent, b):
     kind = node[0]
     fd = dict(node[2])
+    if kind == "WithItem" and not _sub_nodes(fd["optional_vars"]):
+        # an item of a parenthesised with-list is ranged like its expression NODE (/repo 14693ce): a NamedExpr whose
+        # value is parenthesised ends in front of the value's closing parentheses (the listed NamedExpr finding), and
+        # so does the item — the same missing parentheses, nothing else
+        ce = _sub_nodes(fd["context_expr"])
+        if ce and ce[0][0] == "ExprNamedExpr" and tuple(ce[0][1]) == tuple(node[1]):
+            a, e = node[1]
+            k = b[a:e].count(b"(") - b[a:e].count(b")")
+            if k > 0 and re.match(rb"(?:" + _WS + rb"*\)){%d}" % k, b[e:]) and (b"'" not in b[a:e] and b'"' not in b[a:e] and b"#" not in b[a:e]):
+                return "namedexpr-range-excludes-value-parentheses"
     if kind == "ArgWithDefault" and _sub_nodes(fd["default"]):
         # the item ends at the end of the default's NODE: for a parenthesised default the closing parentheses are
         # missing from the item's text (and nothing else)
@@ -1369,6 +1379,7 @@ RP_FINDING_PROGRAMS = [("m", s) for _, _, s in PROBES] + [
     ("m", "try:\n a\nexcept E:\n b;\n"), ("m", "class C:\n    x = 1;\n"), ("m", "def f():\n    return 1;\n"),
     ("m", "with a:\n    b;\n"), ("m", "if a:\n b\nelif c:\n d;\n"), ("m", "match x:\n case 1:\n  a;\n"),
     ("m", "async def f():\n async with a: b;\n"), ("m", "def f(a=(1), *, b=((2))): pass\n"), ("i", "if a:\n    b;\n"),
+    ("m", "with ((a := (b)), c): pass\n"), ("m", "with ((a := ((b) )), (c := (yield d))): pass\n"),
 ]
 
 RP_LAYOUT = [
@@ -1432,8 +1443,17 @@ RP_EXPRESSIONS = ["x", " x ".strip(), "(a,\n b)", "f(é)", "a if b else c\n\n", 
                   "x\n", "x\n\n\n", "x  \n  \n", "(yield)", "\ufeffx", "a\r\n", "(\n a\n)\r\n\r\n"]
 
 
+def _rp_named_escape_in_fstring(t):
+    """an f-string token with a `\\N{NAME}` escape: the attachment rewriting (`\\UXXXXXXXX`, PROG's `fix_attachment`: the
+    name table is a parameter of the string model) changes the length of the literal's text, from which the model
+    computes the offsets of the replacement fields behind it — kept out of the ranged streams"""
+    return any(it[:2] == "sf" and "5c4e7b" in it for it in t.split(","))
+
+
 def _rp_req(mode, src, a):
     t, sp = a.split(" ")
+    if _rp_named_escape_in_fstring(t):
+        return None
     return "rprog %s %s %s %s" % (mode, hexs(src), prog.fix_attachment(t), sp)
 
 
@@ -1517,7 +1537,10 @@ def build_rprog_streams(ctx):
         for (m, s, ref, want), a in zip(items, pre):
             if a.startswith("(") or " " not in a:
                 continue
-            reqs.append(_rp_req(m, s, a))
+            r = _rp_req(m, s, a)
+            if r is None:
+                continue                # named escape inside an f-string literal (see `_rp_named_escape_in_fstring`)
+            reqs.append(r)
             meta.append((ref, want))
         outs = core.run_lines([hbin], reqs, jobs=8)
         keep = []
